@@ -215,9 +215,11 @@ def run(ctx, res):
     # T3: the skeleton the model mirrors
     ts = t2.template_status()
     res.extra['bash_templates'] = ts
-    if ts['variant'] is None:
+    if ts['variant'] != 'repaired':
+        # the theorems are about `run_from Repaired`: a script of the older (pinned / partly repaired) templates is not what they describe
         res.violations.append(report.Violation(
-            'tie T3 broken: templates of src/bash.rs changed since Model/BashSem.v was written: %s' % (ts['changed'] + ts['missing'] + ts['extra']),
+            'tie T3 broken: the templates of src/bash.rs are not the ones Model/BashSem.v (variant Repaired) mirrors: variant %s, %s'
+            % (ts['variant'], ts['changed'] + ts['missing'] + ts['extra']),
             dict(kind='tie-T3', status=ts), found_input=False))
     chain_tables_tie(fams, dumps, res)
     # primitives of the interpreter against real bash
